@@ -239,45 +239,61 @@ func checkWire(r *vrt.R, a Authenticator, rt *captureRT, secret []byte, urlfn, i
 // goroutines, not an exhaustive schedule search): every id computed while other goroutines compute
 // theirs on the same authenticator must still be the reference digest.
 func checkConcurrent(r *vrt.R, a Authenticator, key []byte) {
-	const workers, per = 8, 6000
-	type bad struct {
-		secret    []byte
-		got, want string
+	// Tight loops of nothing but GenerateServerID, released together, with short (16-byte) and long (2 KiB: a wide
+	// window inside the hasher) secrets; the reference is computed afterwards, outside the parallel phase.
+	const workers, per, rounds = 8, 4000, 3
+	type res struct {
+		got string
+		err error
 	}
-	var mu sync.Mutex
-	var first *bad
-	var wg sync.WaitGroup
-	for w := 0; w < workers; w++ {
-		wg.Add(1)
-		go func(w int) {
-			defer wg.Done()
-			for i := 0; i < per; i++ {
-				s := []byte{byte(w), byte(i >> 8), byte(i), 0x5a, byte(w * 31), 0, 0xff, byte(i * 7), 1, 2, 3, 4, 5, 6, 7, byte(w)}
-				want, _ := refServerID(s, key)
-				var got string
-				var err error
-				if pn, v := vrt.Catch(func() { got, err = a.GenerateServerID(s) }); pn {
-					got, err = "", fmt.Errorf("panic: %v", v)
+	for round := 0; round < rounds; round++ {
+		secrets := make([][][]byte, workers)
+		results := make([][]res, workers)
+		for w := range secrets {
+			secrets[w] = make([][]byte, per)
+			results[w] = make([]res, per)
+			for i := range secrets[w] {
+				s := []byte{byte(w), byte(i >> 8), byte(i), 0x5a, byte(w * 31), byte(round), 0xff, byte(i * 7), 1, 2, 3, 4, 5, 6, 7, byte(w)}
+				if i%2 == 1 {
+					s = append(s, bytes.Repeat([]byte{byte(i), byte(w)}, 1024)...)
 				}
-				if err != nil || got != want {
-					if err != nil {
-						got = err.Error()
+				secrets[w][i] = s
+			}
+		}
+		start := make(chan struct{})
+		var wg sync.WaitGroup
+		for w := 0; w < workers; w++ {
+			wg.Add(1)
+			go func(w int) {
+				defer wg.Done()
+				<-start
+				for i, s := range secrets[w] {
+					var got string
+					var err error
+					if pn, v := vrt.Catch(func() { got, err = a.GenerateServerID(s) }); pn {
+						err = fmt.Errorf("panic: %v", v)
 					}
-					mu.Lock()
-					if first == nil {
-						first = &bad{append([]byte(nil), s...), got, want}
+					results[w][i] = res{got, err}
+				}
+			}(w)
+		}
+		close(start)
+		wg.Wait()
+		r.Eval(workers * per)
+		r.ClassN("concurrent:ids-on-shared-authenticator", workers*per)
+		for w := range results {
+			for i, rs := range results[w] {
+				want, _ := refServerID(secrets[w][i], key)
+				if rs.err != nil || rs.got != want {
+					got := rs.got
+					if rs.err != nil {
+						got = rs.err.Error()
 					}
-					mu.Unlock()
+					r.Violation("GenerateServerID/concurrent-logins-differ-from-java", fmt.Sprintf("%d goroutines on one authenticator: secret=%x... (%d bytes) got %q want %q (sequentially the same call is checked by part B)", workers, secrets[w][i][:16], len(secrets[w][i]), got, want), c09Replay{Kind: "concurrent"})
 					return
 				}
 			}
-		}(w)
-	}
-	wg.Wait()
-	r.Eval(workers * per)
-	r.ClassN("concurrent:ids-on-shared-authenticator", workers*per)
-	if first != nil {
-		r.Violation("GenerateServerID/concurrent-logins-differ-from-java", fmt.Sprintf("%d goroutines on one authenticator: secret=%x got %q want %q (sequentially the same call is checked by part B)", workers, first.secret, first.got, first.want), c09Replay{Kind: "concurrent"})
+		}
 	}
 }
 
